@@ -97,6 +97,7 @@ type run struct {
 	mu       sync.Mutex
 	prefix   []string
 	tail     string
+	cycle    []string // periodic tail (nil: the constant tail)
 	reqs     []reqRec
 	urlA     string
 	urlB     string
@@ -107,6 +108,9 @@ type run struct {
 func (rn *run) symbol(i int) string {
 	if i < len(rn.prefix) {
 		return rn.prefix[i]
+	}
+	if len(rn.cycle) > 0 {
+		return rn.cycle[(i-len(rn.prefix))%len(rn.cycle)]
 	}
 	return rn.tail
 }
@@ -119,8 +123,10 @@ type world struct {
 	keys []accept.KeytabEntry
 	srvA *httptest.Server // 127.0.0.1
 	srvB *httptest.Server // localhost
-	runs sync.Map         // run id -> *run
-	seq  atomic.Int64
+	// other names under which the two listeners are reached (URL host, lower case, not rooted -> listener address); see names_test.go
+	hostAddr map[string]string
+	runs     sync.Map // run id -> *run
+	seq      atomic.Int64
 }
 
 func challengeBody(n int) string {
@@ -218,6 +224,7 @@ func newWorld(et int32) (*world, error) {
 		p := w.k.AddService(realm, n, et)
 		w.keys = append(w.keys, accept.KeytabEntry{Realm: realm, Name: n, Kvno: 1, Etype: et, Key: p.Keys[0].Key, Timestamp: 1})
 	}
+	w.addNamedServices()
 	p := w.k.AddService(realm, kmsg.N(1, "ktuser"), 18)
 	kt := keytab.New()
 	if err := kt.Unmarshal(accept.KeytabV2([]accept.KeytabEntry{{Realm: realm, Name: p.Name, Kvno: 1, Etype: 18, Key: p.Keys[0].Key, Timestamp: 1}})); err != nil {
@@ -229,7 +236,7 @@ func newWorld(et int32) (*world, error) {
 	}
 	w.ep = ep
 	etn := kcrypto.EtypeName(et)
-	cfg, err := config.NewFromString(fmt.Sprintf("[libdefaults]\n default_realm = %s\n dns_lookup_kdc = false\n dns_lookup_realm = false\n noaddresses = true\n allow_weak_crypto = true\n default_tkt_enctypes = aes256-cts-hmac-sha1-96\n default_tgs_enctypes = %s aes256-cts-hmac-sha1-96\n permitted_enctypes = %s aes256-cts-hmac-sha1-96\n[realms]\n %s = {\n  kdc = %s\n }\n", realm, etn, etn, realm, ep.Addr()))
+	cfg, err := config.NewFromString(fmt.Sprintf("[libdefaults]\n default_realm = %s\n dns_lookup_kdc = false\n dns_lookup_realm = false\n noaddresses = true\n allow_weak_crypto = true\n default_tkt_enctypes = aes256-cts-hmac-sha1-96\n default_tgs_enctypes = %s aes256-cts-hmac-sha1-96\n permitted_enctypes = %s aes256-cts-hmac-sha1-96\n[realms]\n %s = {\n  kdc = %s\n }\n %s = {\n  kdc = %s\n }\n[domain_realm]\n %s = %s\n", realm, etn, etn, realm, ep.Addr(), realm2, ep.Addr(), mappedDomain, realm2))
 	if err != nil {
 		return nil, err
 	}
@@ -244,6 +251,7 @@ func newWorld(et int32) (*world, error) {
 	}
 	w.srvB = &httptest.Server{Listener: lb, Config: &http.Server{Handler: w.handler("B")}}
 	w.srvB.Start()
+	w.nameListeners()
 	return w, nil
 }
 
@@ -257,9 +265,34 @@ func (w *world) close() {
 type script struct {
 	prefix []string
 	tail   string
+	cycle  []string // periodic tail: the answers after the prefix repeat this sequence for ever (nil: the constant tail)
 }
 
-func (sc script) key() string { return fmt.Sprintf("%s|%s", strings.Join(sc.prefix, ","), sc.tail) }
+func (sc script) key() string {
+	if len(sc.cycle) > 0 {
+		return fmt.Sprintf("%s|cycle(%s)", strings.Join(sc.prefix, ","), strings.Join(sc.cycle, ","))
+	}
+	return fmt.Sprintf("%s|%s", strings.Join(sc.prefix, ","), sc.tail)
+}
+
+// tailClass names the tail in fingerprints and sample kinds.
+func (sc script) tailClass() string {
+	if len(sc.cycle) > 0 {
+		return "periodic"
+	}
+	return sc.tail
+}
+
+func (sc script) has(sym string) bool {
+	for _, l := range [][]string{sc.prefix, sc.cycle, {sc.tail}} {
+		for _, s := range l {
+			if s == sym {
+				return true
+			}
+		}
+	}
+	return false
+}
 
 // caseCfg is one fully determined call: the script, the request and the application's http.Client configuration.
 type caseCfg struct {
@@ -278,7 +311,8 @@ type caseCfg struct {
 	sharedN   int
 	timeout   time.Duration // http.Client.Timeout (0 = none)
 	chalBody  int
-	member    string // "" or "member=i-of-n" in a concurrent group
+	member    string  // "" or "member=i-of-n" in a concurrent group
+	nm        *naming // nil: the listeners are addressed as 127.0.0.1 and localhost
 }
 
 // deriveCase draws everything but the script from PRNG streams keyed by the script.
@@ -310,6 +344,9 @@ func (c caseCfg) full(et int32) string {
 	if c.member != "" {
 		s += "/" + c.member + "/script=" + c.sc.key()
 	}
+	if c.nm != nil {
+		s += "/" + c.nm.String() + "/script=" + c.sc.key()
+	}
 	return s
 }
 
@@ -335,6 +372,7 @@ type outcome struct {
 	returned  bool // Do returned (after the cancellation, if stalled)
 	policyLog []string
 	trips     []rtRec // what the transport delivered to the http.Client, in order
+	kdcMark   int     // length of the simulated KDC's request log when the execution began
 }
 
 // rtRec is one round trip as the http.Client saw it (recorded by a wrapper around the transport).
@@ -410,13 +448,15 @@ func TestProp(t *testing.T) {
 	}
 	r.SetRule("scripted HTTP servers on 127.0.0.1 and localhost answer the k-th request of a spnego.Client.Do call with the k-th symbol of a script: every sequence of length <= L over {200, 401 bare Negotiate, 401 Negotiate+reject token, 401 other scheme, 302 same host, 302 other host, 500} followed by each constant tail " +
 		"(L = 3 quick, 5 thorough; exhaustive), crossed with a seeded choice of method GET/HEAD/POST, body size {0,1,4 KiB,300 KiB,1 MiB}, explicit vs URL-derived SPN, the etype of the service ticket (six worlds) and the application's http.Client: redirect policy {none, always allow, allow below n hops, ErrUseLastResponse, refuse}, " +
-		"transport {process default, fresh, MaxConnsPerHost 1 with and without keep-alive}, Client.Timeout {60 s, none}, body sent with a 401 {0, 14, 3000, 70000 bytes}; plus groups of N = 2..4 concurrent calls on one transport with MaxConnsPerHost N. Every request is recorded (headers, body length and SHA-256). " +
+		"transport {process default, fresh, MaxConnsPerHost 1 with and without keep-alive}, Client.Timeout {60 s, none}, body sent with a 401 {0, 14, 3000, 70000 bytes}; plus groups of N = 2..4 concurrent calls on one transport with MaxConnsPerHost N; plus periodic servers: every prefix of length <= 1 (2 thorough) followed by every non-constant cycle of 2 answers repeated for ever, and every prefix of length <= 0 (1 thorough) followed by every non-constant cycle of 3 answers; " +
+		"plus a names family (160 cases per world quick, 1200 thorough; scripts that challenge at least once): the two listeners are addressed by host names through the transport's DialContext, written in the URL (and in the redirect targets) plain, with a port, with the explicit default port, rooted (trailing dot) with and without port, and in upper case (observed only), the services living in the client's realm, in a second realm found through [domain_realm], or in a second realm the client's KDC refers to (cross-realm service tickets; the acceptor compares the authenticator's crealm with the ticket's). Every request is recorded (headers, body length and SHA-256). " +
 		"Oracle: request count <= 64; Do returns (a call without any progress for 4 s is re-run alone and is a violation if it again makes no progress for 45 s); a bare Negotiate challenge to an unauthenticated request is followed by a retry of that same request (same server, path, method) carrying a token that the reference acceptor (holding the service key of the intended SPN) accepts, with an RFC 4121 4.1.1 authenticator checksum - " +
 		"also when Do returns an error (the simulated KDC is healthy and knows every SPN; only if the transport did deliver the challenge to the http.Client, and confirmed by a second execution alone); the body received with an authenticated request equals the original; Do returns the server's last response or an error. distinct = (script, method, body, spn mode, etype); non-trivial = all")
 	r.Assume("independent acceptor = ref/accept over ref/kmsg/ref/kcrypto with one replay state per Do call (the tokens of one call must be distinct authenticators); the JDK GSS acceptor of DESIGN.md is not wired into this check")
 	r.Assume("the simulated KDC answers every well-formed request and holds all three service principals, so the client has no legitimate reason to give up on a challenge; it decodes requests strictly (RFC 4120 DER), as MIT/Heimdal/JDK do")
 	r.Assume("a hang is judged by real time without progress, confirmed by a second execution alone with a longer quiet period; unconfirmed stalls are counted (observe_stall_not_reproduced), not judged. The same holds for a call that gives up on a delivered challenge with an error (the library's KDC exchange has real-time limits): violation only if a second execution alone does the same")
 	r.Note("a server answering 401 to an unauthenticated request does so before reading the request body (as real servers do)")
+	r.Assume("URL-derived SPN = HTTP/<host of the URL> with the host as Kerberos names hosts (RFC 4120 6.2.1): without port and without the root dot of a rooted DNS name. The resolver of this sandbox offers no canonical name for the names used (checked at start: otherwise the names family is not judged). A URL host in upper case is observed, not judged (the statement does not say who lowers the case)")
 
 	L := 3
 	if vh.Thorough() {
@@ -426,7 +466,7 @@ func TestProp(t *testing.T) {
 	var gen func(p []string)
 	gen = func(p []string) {
 		for _, tl := range alphabet {
-			scripts = append(scripts, script{append([]string{}, p...), tl})
+			scripts = append(scripts, script{prefix: append([]string{}, p...), tail: tl})
 		}
 		if len(p) == L {
 			return
@@ -436,6 +476,7 @@ func TestProp(t *testing.T) {
 		}
 	}
 	gen(nil)
+	scripts = append(scripts, periodicScripts()...)
 	var worlds []*world
 	for _, et := range kcrypto.Etypes {
 		w, err := newWorld(et)
@@ -447,6 +488,12 @@ func TestProp(t *testing.T) {
 		worlds = append(worlds, w)
 	}
 	h := &harness{r: r, nClass: map[string]int{}}
+	names := nameCases()
+	if why := resolverRenamesHosts(); why != "" {
+		// the intended SPN of a URL-derived case would then be the resolver's name, which this check does not model
+		r.Note("names family not run: " + why)
+		names = 0
+	}
 	groups := 24
 	if vh.Thorough() {
 		groups = 240
@@ -461,6 +508,19 @@ func TestProp(t *testing.T) {
 				if !mine(r, c.ck) {
 					continue
 				}
+				if h.classClosed(c.class()) {
+					r.Inc("skipped_after_stall_suspects")
+					continue
+				}
+				h.runCase(w, c, false)
+			}
+			// the listeners addressed by other names, in other spellings, in this and in another realm
+			for n := 0; n < names; n++ {
+				nk := fmt.Sprintf("name%d-et%d", n, w.et)
+				if !mine(r, nk) {
+					continue
+				}
+				c := deriveNameCase(nk, scripts)
 				if h.classClosed(c.class()) {
 					r.Inc("skipped_after_stall_suspects")
 					continue
@@ -493,7 +553,8 @@ func TestProp(t *testing.T) {
 		done[s.class]++
 		s.rerun()
 	}
-	r.Exhaustive(fmt.Sprintf("scripts: every prefix of length <= %d over 7 symbols x 7 tails", L))
+	r.Exhaustive(fmt.Sprintf("scripts: every prefix of length <= %d over 7 symbols x 7 tails; every prefix of length <= %d x every non-constant cycle of length 2 and every prefix of length <= %d x every non-constant cycle of length 3", L, periodicPrefix2(), periodicPrefix3()))
+	requireWide(r)
 	r.Require("authenticated_retries_accepted", 500)
 	r.Require("bodies_replayed_intact", 100)
 	r.Require("large_bodies_replayed_intact", 10)
@@ -582,8 +643,12 @@ func (h *harness) runCase(w *world, c caseCfg, confirming bool) {
 
 // execute performs the call and watches its progress.
 func execute(w *world, c caseCfg, quiet time.Duration) (o outcome) {
-	rn := &run{id: fmt.Sprintf("run%d", w.seq.Add(1)), prefix: c.sc.prefix, tail: c.sc.tail, urlA: w.srvA.URL, urlB: strings.Replace(w.srvB.URL, "127.0.0.1", "localhost", 1), chalBody: c.chalBody}
+	rn := &run{id: fmt.Sprintf("run%d", w.seq.Add(1)), prefix: c.sc.prefix, tail: c.sc.tail, urlA: w.srvA.URL, urlB: strings.Replace(w.srvB.URL, "127.0.0.1", "localhost", 1), chalBody: c.chalBody, cycle: c.sc.cycle}
+	if c.nm != nil {
+		rn.urlA, rn.urlB = "http://"+c.nm.authA, "http://"+c.nm.authB
+	}
 	w.runs.Store(rn.id, rn)
+	o.kdcMark = len(w.k.Requests())
 	defer func() {
 		// keep the record reachable for straggling requests of an aborted retry; they must not hit a later run
 		go func() { time.Sleep(5 * time.Second); w.runs.Delete(rn.id) }()
@@ -591,6 +656,9 @@ func execute(w *world, c caseCfg, quiet time.Duration) (o outcome) {
 	spn := ""
 	if c.explicit {
 		spn = explicitSPN
+		if c.nm != nil {
+			spn = c.nm.explicitSPN
+		}
 	}
 	var polMu sync.Mutex
 	var polLog []string
@@ -629,16 +697,23 @@ func execute(w *world, c caseCfg, quiet time.Duration) (o outcome) {
 			switch c.transport {
 			case trDefault:
 				rec.inner = http.DefaultTransport
+				if c.nm != nil {
+					// the process-wide transport cannot be told where the names live: a copy of it with the name mapping
+					tr := http.DefaultTransport.(*http.Transport).Clone()
+					tr.DialContext = w.dial
+					defer tr.CloseIdleConnections()
+					rec.inner = tr
+				}
 			case trFresh:
-				tr := &http.Transport{}
+				tr := &http.Transport{DialContext: w.dial}
 				defer tr.CloseIdleConnections()
 				rec.inner = tr
 			case trOneConn:
-				tr := &http.Transport{MaxConnsPerHost: 1}
+				tr := &http.Transport{MaxConnsPerHost: 1, DialContext: w.dial}
 				defer tr.CloseIdleConnections()
 				rec.inner = tr
 			case trOneConnClose:
-				tr := &http.Transport{MaxConnsPerHost: 1, DisableKeepAlives: true}
+				tr := &http.Transport{MaxConnsPerHost: 1, DisableKeepAlives: true, DialContext: w.dial}
 				defer tr.CloseIdleConnections()
 				rec.inner = tr
 			case trShared:
@@ -714,7 +789,7 @@ wait:
 
 func (h *harness) judge(w *world, c caseCfg, o outcome, confirming string) {
 	r := h.r
-	reqs, derr, tail, method, size, explicit, chunked := o.reqs, o.derr, c.sc.tail, c.method, c.size, c.explicit, c.chunked
+	reqs, derr, tail, method, size, explicit, chunked := o.reqs, o.derr, c.sc.tailClass(), c.method, c.size, c.explicit, c.chunked
 	wantSHA := fmt.Sprintf("%x", sha256.Sum256(c.body))
 	full := c.full(w.et)
 	d := map[string]any{"case": full, "script": c.sc.key(), "method": method, "body_size": size, "chunked": chunked, "explicit_spn": explicit, "authorization_set_by_the_caller": c.other, "etype": w.et, "requests": trimReqs(reqs), "request_count": len(reqs), "do_error": fmt.Sprint(derr),
@@ -724,6 +799,12 @@ func (h *harness) judge(w *world, c caseCfg, o outcome, confirming string) {
 	}
 	if len(o.policyLog) > 0 {
 		d["application_redirect_policy_calls"] = o.policyLog
+	}
+	if c.nm != nil {
+		d["url_of_server_A"], d["url_of_server_B"], d["service_realm"], d["service_realm_found_by"] = "http://"+c.nm.authA, "http://"+c.nm.authB, c.nm.svcRealm, c.nm.where
+		if explicit {
+			d["explicit_spn_value"] = c.nm.explicitSPN
+		}
 	}
 	if c.transport == trShared {
 		d["max_conns_per_host"] = c.sharedN
@@ -795,13 +876,23 @@ func (h *harness) judge(w *world, c caseCfg, o outcome, confirming string) {
 		if explicit {
 			want = kmsg.N(1, "HTTP", "explicit.test.gokrb5")
 		}
+		if c.nm != nil {
+			want = c.nm.intended(q.Host, explicit)
+		}
 		if why := verifyToken(w, q.Auth, want, replay); why != "" {
+			if c.nm != nil && !explicit && !c.nm.judged(q.Host) {
+				r.Inc("observe_token_for_a_url_host_in_upper_case_not_acceptable")
+				return
+			}
 			d["token_defect"] = why
 			r.Violation("C18|token-rejected|"+tokenClass(why), "the Negotiate token of the authenticated retry is not acceptable to an independent acceptor for "+want.String()+": "+why, d)
 			return
 		}
 		r.Inc("authenticated_retries_accepted")
 		r.Inc(fmt.Sprintf("tokens_accepted_et%d", w.et))
+		if c.nm != nil {
+			c.nm.countAccepted(r, q.Host, explicit, w.et)
+		}
 		// body intact
 		if method == "POST" && q.BodyDone && q.BodyErr == "" && q.Method == "POST" {
 			if q.BodyLen != size || q.BodySHA != wantSHA {
@@ -837,6 +928,10 @@ func (h *harness) judge(w *world, c caseCfg, o outcome, confirming string) {
 				delivered = lt.Err == "" && lt.Status == 401 && lt.WWW == "Negotiate" && !lt.Authed
 			}
 			d["round_trips_seen_by_the_http_client"] = o.trips
+			if c.nm != nil && !explicit && !c.nm.judged(last.Host) {
+				r.Inc("observe_gave_up_on_a_challenge_from_a_url_host_in_upper_case")
+				return
+			}
 			if !delivered {
 				r.Inc("observe_challenge_lost_in_transport")
 				r.Inc("do_returned_error")
@@ -853,7 +948,17 @@ func (h *harness) judge(w *world, c caseCfg, o outcome, confirming string) {
 			if kdc := w.kdcRefusals(3); len(kdc) > 0 {
 				d["last_requests_refused_by_the_simulated_kdc"] = kdc
 			}
-			r.Violation("C18|no-retry-after-challenge|error", "Do gave up on a bare Negotiate challenge with an error although the KDC is healthy and knows the service: no authenticated retry was sent ("+fmt.Sprint(derr)+")", d)
+			fp := "C18|no-retry-after-challenge|error"
+			if c.nm != nil {
+				want := c.nm.intended(last.Host, explicit)
+				d["intended_service"] = want.String() + "@" + c.nm.svcRealm
+				// this execution ran alone: the last request the KDC refused is its own
+				if sn, ok := w.lastRefusedService(o.kdcMark); ok && !sn.Equal(want) {
+					d["ticket_requested_for"] = sn.String()
+					fp = "C18|no-retry-after-challenge|ticket-requested-for-another-service"
+				}
+			}
+			r.Violation(fp, "Do gave up on a bare Negotiate challenge with an error although the KDC is healthy and knows the service: no authenticated retry was sent ("+fmt.Sprint(derr)+")", d)
 			return
 		}
 	}
@@ -895,6 +1000,15 @@ func (h *harness) judge(w *world, c caseCfg, o outcome, confirming string) {
 			r.Inc("concurrent_challenges_with_body_on_a_shared_limited_transport")
 		}
 	}
+	if len(c.sc.cycle) > 0 {
+		r.Inc("calls_against_a_periodic_server_ended")
+		if len(reqs) >= 10 {
+			r.Inc("calls_against_a_periodic_server_ended_after_10_or_more_requests")
+		}
+		if c.sc.has(s401Neg) && (c.sc.has(s302Same) || c.sc.has(s302Other)) && len(reqs) >= 10 {
+			r.Inc("calls_against_a_server_alternating_challenges_and_redirects_ended_after_10_or_more_requests")
+		}
+	}
 	if len(reqs) > 3 {
 		r.SampleKind("script-"+tail, 1, d)
 	}
@@ -916,6 +1030,22 @@ func (w *world) kdcRefusals(n int) []string {
 		}
 	}
 	return out
+}
+
+// lastRefusedService is the service name of the most recent TGS-REQ (other than one for a ticket-granting ticket) that the
+// simulated KDC refused since its log had the length from.
+func (w *world) lastRefusedService(from int) (kmsg.Name, bool) {
+	rs := w.k.Requests()
+	for i := len(rs) - 1; i >= 0 && i >= from; i-- {
+		q := rs[i]
+		if q.TGSErr == "" || q.Req == nil || q.Req.Body.SName == nil {
+			continue
+		}
+		if sn := *q.Req.Body.SName; len(sn.Parts) > 0 && sn.Parts[0] != "krbtgt" {
+			return sn, true
+		}
+	}
+	return kmsg.Name{}, false
 }
 
 func trimReqs(rs []reqRec) []reqRec {
